@@ -1196,6 +1196,12 @@ mod builtins {
         };
         ok!(args.assert_all_used());
         if let Some(indent) = indent {
+            if indent > crate::value::ops::MAX_REPEATED_STRING_LEN {
+                return Err(Error::new(
+                    ErrorKind::InvalidOperation,
+                    "indentation is too large",
+                ));
+            }
             let indentation = " ".repeat(indent);
             serialize_json(
                 value,
@@ -1277,6 +1283,12 @@ mod builtins {
         };
         ok!(kwargs.assert_all_used());
 
+        if width > crate::value::ops::MAX_REPEATED_STRING_LEN {
+            return Err(Error::new(
+                ErrorKind::InvalidOperation,
+                "indentation is too large",
+            ));
+        }
         let input = strip_trailing_newline(value.as_str());
         let indent_with = " ".repeat(width);
         let mut output = String::new();
